@@ -246,10 +246,10 @@ PROPS = {
     "C07": {"modules": ["Netconan.Props.C07"], "scopes": [secret_checks.corr_scope, secret_checks.c07_scope],
             "checker_cmd": "cd lean && lake build Netconan.Props.C07 && lake env lean <#print axioms audit>", "rule": SECRET_RULE,
             "assumptions": SECRET_ASSUME},
-    "C08": {"modules": ["Netconan.Props.C08", "Netconan.Props.C18Data"], "scopes": [secret_checks.corr_scope, secret_checks.c08_scope, secret_checks.c08_dir_scope],
+    "C08": {"modules": ["Netconan.Props.C08", "Netconan.Props.C18Data"], "scopes": [secret_checks.corr_scope, secret_checks.codec_scope, secret_checks.c08_scope, secret_checks.c08_dir_scope],
             "checker_cmd": "cd lean && lake build Netconan.Props.C08 && lake env lean <#print axioms audit>", "rule": SECRET_RULE,
             "assumptions": SECRET_ASSUME},
-    "C09": {"modules": ["Netconan.Props.C09"], "scopes": [secret_checks.corr_scope, secret_checks.c09_scope],
+    "C09": {"modules": ["Netconan.Props.C09"], "scopes": [secret_checks.corr_scope, secret_checks.codec_scope, secret_checks.c09_scope],
             "checker_cmd": "cd lean && lake build Netconan.Props.C09 && lake env lean <#print axioms audit>", "rule": SECRET_RULE,
             "assumptions": SECRET_ASSUME},
     "C10": text_prop("C10", [text_checks.words_scope, text_checks.hashseed_scope]),
